@@ -643,18 +643,21 @@ class Facts:
 # ----------------------------------------------------------------------------------------------
 # iterator-chain helpers
 
-def _deref_call(n):
+def _deref_call(n, stop=()):
     """strip(); a single-definition local whose initialiser is a method call continues the chain it is part of"""
     n = strip(n)
+    if stop and n.get("k") == "Path" and n.get("res", {}).get("name") in stop:
+        return n
     d = deref(n)
     return d if d is not n and d.get("k") == "MethodCall" else n
 
 
-def chain(n, follow=True):
+def chain(n, follow=True, stop=()):
     """unroll a method-call chain: returns (root expression, [call nodes innermost-first]). With follow, a receiver that is a
-    single-definition local initialised by a method call continues the chain (`let it = v.iter(); it.map(f)` is v.iter().map(f))"""
+    single-definition local initialised by a method call continues the chain (`let it = v.iter(); it.map(f)` is v.iter().map(f));
+    locals named in `stop` are roots even so (for rules that address a local by the role its name was given)"""
     calls_ = []
-    step = _deref_call if follow else strip
+    step = (lambda x: _deref_call(x, stop)) if follow else strip
     n = step(n)
     while n.get("k") == "MethodCall":
         calls_.append(n)
